@@ -1,9 +1,9 @@
-"""The shared tiny-network family: skeletons + a finite deviation catalogue; cases = skeleton x every subset of
+"""The shared tiny-network family: 8 skeletons + a finite deviation catalogue; cases = skeleton x every subset of
 <= d deviations (stateless, deviation-bounded enumeration).  Everything is written out; nothing is random."""
 import itertools
 from .net import *
 
-PATS = {"P1": [1.0, 2.0, 0.5], "P5": [0.6, 1.4, 1.0, 0.2, 1.8], "PH": [1.0, 0.9, 1.1]}
+PATS = {"P1": [1.0, 2.0, 0.5], "P5": [0.6, 1.4, 1.0, 0.2, 1.8], "PH": [1.0, 0.9, 1.1], "PD": [2.0, 2.0, 0.3, 0.3, 0.3, 0.3]}
 
 
 def skeletons():
@@ -22,6 +22,10 @@ def skeletons():
     sk["pumpfeed"] = spec([R("R", 10.0), J("J1"), J("J2", 5.0, [[0.02, None, None]]), T("T")],
                           [HP("pu", "R", "J1", [[0.05, 40.0]]), P("p2", "J1", "J2"), P("p3", "J2", "T")],
                           OPTS(dur=6 * 3600))
+    # a tank that floats on the network through a link drawn junction -> tank, drains to its minimum level within the
+    # second hour (its link is shut by the simulator) and refills when the demand drops
+    sk["drain"] = spec([R("R", 33.0), J("J1", 0.0, [[0.06, "PD", None]]), T("T", init=0.8)],
+                       [P("p1", "R", "J1"), P("p2", "J1", "T")], OPTS(dur=6 * 3600))
     for s in sk.values():
         s["patterns"] = dict(PATS)
     return sk
